@@ -453,20 +453,72 @@ def checkForCycles (S : SchemaMut) : Except SchemaErr Unit :=
       else go n (i + 1) cs
   go S.size 0 {}
 
-/-- `impl FromStr for SchemaMut`, from the JSON value (depth limit of `serde_json`: 128). -/
+/-! ### the recursion limit of `serde_json`, and gas for the readers
+
+`serde_json` refuses a document whose arrays / objects are nested more than 127 deep (recursion
+limit 128; it counts container nesting only — also inside members the schema reader skips — and
+neither the number of members of an object nor the number of elements of an array).  The fuel of
+`rawOfJson` and friends is therefore pure gas: `parseJson` checks `jsonNesting` explicitly and
+hands them `rawGas j`, which always suffices (`Lemmas/ValidParsesGas.lean`:
+`parseDepth_le_rawGas`, `rawOfJson_gas_irrelevant`). -/
+
+mutual
+
+/-- nesting depth of the arrays and objects of a JSON value (a scalar: 0) -/
+def jsonNesting : Json → Nat
+  | .arr items => 1 + jsonNestingList items
+  | .obj members => 1 + jsonNestingMembers members
+  | _ => 0
+
+def jsonNestingList : List Json → Nat
+  | [] => 0
+  | j :: rest => max (jsonNesting j) (jsonNestingList rest)
+
+def jsonNestingMembers : List (String × Json) → Nat
+  | [] => 0
+  | (_, v) :: rest => max (jsonNesting v) (jsonNestingMembers rest)
+
+end
+
+mutual
+
+/-- weight of a JSON value: one per value, one per array element / object member (only used for
+    `rawGas`; the name avoids the `jsonSize` of the test driver) -/
+def jsonWeight : Json → Nat
+  | .arr items => 1 + jsonWeightList items
+  | .obj members => 1 + jsonWeightMembers members
+  | _ => 1
+
+def jsonWeightList : List Json → Nat
+  | [] => 0
+  | j :: rest => 1 + jsonWeight j + jsonWeightList rest
+
+def jsonWeightMembers : List (String × Json) → Nat
+  | [] => 0
+  | (_, v) :: rest => 1 + jsonWeight v + jsonWeightMembers rest
+
+end
+
+/-- gas for `rawOfJson`: always enough -/
+def rawGas (j : Json) : Nat := 2 * jsonWeight j + 2
+
+/-- `impl FromStr for SchemaMut`, from the JSON value.  `serde_json` first: its recursion limit
+    (128) rejects arrays / objects nested more than 127 deep. -/
 def parseJson (j : Json) (nodeCount : Nat) : Except SchemaErr SchemaMut :=
-  match rawOfJson 128 j with
-  | .error e => .error e
-  | .ok raw =>
-    match registerNode (nodeCount + 2) raw none {} with
+  if jsonNesting j > 127 then .error .json
+  else
+    match rawOfJson (rawGas j) j with
     | .error e => .error e
-    | .ok (_, st) =>
-      match resolveKeys st with
+    | .ok raw =>
+      match registerNode (nodeCount + 2) raw none {} with
       | .error e => .error e
-      | .ok S =>
-        match checkForCycles S with
+      | .ok (_, st) =>
+        match resolveKeys st with
         | .error e => .error e
-        | .ok _ => .ok S
+        | .ok S =>
+          match checkForCycles S with
+          | .error e => .error e
+          | .ok _ => .ok S
 
 /-! ### Parsing Canonical Form -/
 
